@@ -90,10 +90,54 @@ type c03Replay struct {
 	Pos     int    `json:"pos"`
 	Byte    int    `json:"byte"`
 	Base    []byte `json:"base"`
+	// A parser that keeps state between calls (a pooled scratch object, a cache) may accept a damaged
+	// message only after certain others.  The replay therefore re-executes this worker's enumeration
+	// from its start (same shard, same shard count, same bounds) up to the evaluation that failed, and
+	// judges that one.
+	Shard   int `json:"shard"`
+	NShards int `json:"nshards"`
+	NBase   int `json:"nbase"`
+	Eval    int `json:"eval"` // 1-based index of the failing evaluation in this worker's sequence
 }
 
+var (
+	c03Evals  int // evaluations made by this worker so far
+	c03Target int // replay: the evaluation to judge (earlier ones only rebuild the history); 0 = exploring
+	c03NBase  int
+	c03Done   bool
+)
+
 func c03Check(R *vlib.Out, b baseMsg, v []byte, kind string, pos, bt int) {
+	c03Evals++
+	if c03Target > 0 && c03Evals != c03Target {
+		if c03Evals < c03Target { // history only: parse as the exploration did, judge nothing
+			for _, strict := range []bool{true, false} {
+				p := b.T.message(emptyPops(b.T.Hdr), emptyPops(b.T.Body), emptyPops(b.T.Trl))
+				data := make([]byte, len(v))
+				copy(data, v)
+				if safeUnmarshal(p, data, strict) == nil {
+					return // the exploration stopped at the first acceptance too
+				}
+			}
+			for _, strict := range []bool{true, false} {
+				p := b.T.message(emptyPops(b.T.Hdr), emptyPops(b.T.Body), emptyPops(b.T.Trl))
+				if safeUnmarshal(p, append([]byte{}, b.Data...), strict) != nil {
+					break
+				}
+				data := make([]byte, len(v))
+				copy(data, v)
+				if safeUnmarshal(p, data, strict) == nil {
+					return
+				}
+			}
+		}
+		return
+	}
+	if c03Target > 0 {
+		c03Done = true
+	}
 	R.Eval()
+	hist := c03Replay{Shard: *vlib.Shard, NShards: *vlib.NShards, NBase: c03NBase, Eval: c03Evals}
 	for _, strict := range []bool{true, false} {
 		p := b.T.message(emptyPops(b.T.Hdr), emptyPops(b.T.Body), emptyPops(b.T.Trl))
 		data := make([]byte, len(v)) // exact capacity: any over-read faults or reads zeroes, never stale bytes
@@ -102,11 +146,27 @@ func c03Check(R *vlib.Out, b baseMsg, v []byte, kind string, pos, bt int) {
 		if err == nil {
 			sig := c03sig(b, v, kind, pos, bt)
 			R.Violate(sig, fmt.Sprintf("strict=%v accepted %s  (base %s; %s at %d byte 0x%02x)", strict, vlib.Show(v), vlib.Show(b.Data), kind, pos, bt),
-				c03Replay{b.T, v, kind, pos, bt, b.Data})
+				c03Replay{b.T, v, kind, pos, bt, b.Data, hist.Shard, hist.NShards, hist.NBase, hist.Eval})
 			return
 		}
 		if len(err.Error()) >= 5 && err.Error()[:5] == "PANIC" {
-			R.Violate("panic:"+kind, fmt.Sprintf("strict=%v %q: %v", strict, v, err), c03Replay{b.T, v, kind, pos, bt, b.Data})
+			R.Violate("panic:"+kind, fmt.Sprintf("strict=%v %q: %v", strict, v, err), c03Replay{b.T, v, kind, pos, bt, b.Data, hist.Shard, hist.NShards, hist.NBase, hist.Eval})
+			return
+		}
+	}
+	// the same variant parsed into a message object that has been used before (it holds the fields of the
+	// intact message from an earlier, successful parse): a caller may keep one object per connection
+	for _, strict := range []bool{true, false} {
+		p := b.T.message(emptyPops(b.T.Hdr), emptyPops(b.T.Body), emptyPops(b.T.Trl))
+		if safeUnmarshal(p, append([]byte{}, b.Data...), strict) != nil {
+			break // the base itself does not parse into this template: nothing to reuse
+		}
+		data := make([]byte, len(v))
+		copy(data, v)
+		if err := safeUnmarshal(p, data, strict); err == nil {
+			sig := "reused-object:" + c03sig(b, v, kind, pos, bt)
+			R.Violate(sig, fmt.Sprintf("strict=%v accepted %s into a message object that had parsed the intact message before (base %s; %s at %d byte 0x%02x)", strict, vlib.Show(v), vlib.Show(b.Data), kind, pos, bt),
+				c03Replay{b.T, v, kind, pos, bt, b.Data, hist.Shard, hist.NShards, hist.NBase, hist.Eval})
 			return
 		}
 	}
@@ -176,6 +236,7 @@ func regionOf(b baseMsg, pos int) string {
 }
 
 func enumC03(R *vlib.Out, nbase int) {
+	c03NBase = nbase
 	bases := baseMessages(nbase)
 	R.Bounds["base_messages"] = len(bases)
 	unit := 0
@@ -190,7 +251,10 @@ func enumC03(R *vlib.Out, nbase int) {
 			if !vlib.Mine(unit) {
 				continue
 			}
-			if vlib.Expired() {
+			if c03Done {
+				return
+			}
+			if c03Target == 0 && vlib.Expired() {
 				R.Cap("deadline")
 				return
 			}
@@ -228,5 +292,14 @@ func enumC03(R *vlib.Out, nbase int) {
 func replayC03(R *vlib.Out) {
 	var rp c03Replay
 	vlib.LoadReplay(&rp)
+	if rp.Eval > 0 && rp.NShards > 0 {
+		*vlib.Shard, *vlib.NShards = rp.Shard, rp.NShards
+		c03Target = rp.Eval
+		enumC03(R, rp.NBase)
+		if !c03Done {
+			vlib.Fatal("C03 replay: evaluation %d was not reached (worker made %d)", rp.Eval, c03Evals)
+		}
+		return
+	}
 	c03Check(R, baseMsg{rp.T, rp.Base, describe(rp.T)}, rp.Variant, rp.Kind, rp.Pos, rp.Byte)
 }
